@@ -367,6 +367,9 @@ class Recfile(object):
         if self.robj is None:
             raise ValueError("You have not yet opened a file")
 
+        if columns is None:
+            columns = fields
+
         rows = self._get_rows2read(rows)
         colnums, isscalar = self._get_colnums_to_read(fields, columns=columns)
 
